@@ -21,7 +21,6 @@ import (
 	"github.com/sourcenetwork/defradb/internal/datastore"
 	"github.com/sourcenetwork/defradb/internal/db/id"
 	"github.com/sourcenetwork/defradb/internal/keys"
-	"github.com/sourcenetwork/defradb/internal/planner/filter"
 	"github.com/sourcenetwork/defradb/internal/planner/mapper"
 )
 
@@ -68,15 +67,11 @@ func newIndexFetcher(
 		ordering:   ordering,
 	}
 
-	fieldsToCopy := make([]mapper.Field, 0, len(indexDesc.Fields))
-	for _, field := range indexDesc.Fields {
-		typeIndex := docMapper.FirstIndexOfName(field.Name)
-		indexField := mapper.Field{Index: typeIndex, Name: field.Name}
-		fieldsToCopy = append(fieldsToCopy, indexField)
-	}
-	for i := range fieldsToCopy {
-		f.indexFilter = filter.Merge(f.indexFilter, filter.CopyField(docFilter, fieldsToCopy[i]))
-	}
+	// The conditions on the indexed fields are looked up in the document filter as it is. Copying
+	// out the parts that mention an indexed field is not equivalent to it: of an _or only the
+	// branches with that field would remain, and a single remaining branch is then normalized
+	// into a plain condition that not every matching document satisfies.
+	f.indexFilter = docFilter
 
 	for _, indexedField := range f.indexDesc.Fields {
 		field, ok := f.col.Definition().GetFieldByName(indexedField.Name)
